@@ -208,6 +208,19 @@ def run(tier: str) -> int:
                 if a2 is a1 or len(a2.children) != 1:
                     ck.py_violation(line, str(a2), f"{mname}.{name}('c', **{kwargs}) shares state between calls")
                     break
+            # its own element also when the one child argument is a TagList: the element's child list is the element's own
+            from htmltools import TagList as _TL
+            shared = _TL("a", Tag("b", "c"))
+            e1 = f(shared)
+            e1.append("more")
+            e1.children.insert(0, "first")
+            e2 = f(shared, {"id": "second"})
+            ck.holds_checked += 1
+            if len(shared) != 2 or len(e2.children) != 2 or e1.children is shared or e1.children.data is shared.data:
+                ck.py_violation(line, str(e2), f"{mname}.{name}(tl) with a TagList as its one child shares storage with it: after appending to / inserting into the element the "
+                                f"TagList has {len(shared)} items (2 expected) and a second element built from it has {len(e2.children)} children",
+                                py=f"tl = TagList('a', Tag('b', 'c')); e = htmltools.{mname}.{name}(tl); e.append('more'); len(tl), len(htmltools.{mname}.{name}(tl).children)")
+                continue
             mp = MapNode(title="t", id="m")
             tm = f("a", mp, {"lang": "en"})
             ck.holds_checked += 1
